@@ -247,6 +247,12 @@ func (s *Session) bind(o *Config) {
 		return
 	}
 
+	// Only an IQ of type result confirms the binding: an error reply may echo the <bind/> payload
+	if iq.XMLName.Local != "iq" || iq.Type != stanza.IQTypeResult {
+		s.err = errors.New("iq bind failed: expected an iq result, got <" + iq.XMLName.Local + "> of type '" + string(iq.Type) + "'")
+		return
+	}
+
 	// TODO Check all elements
 	switch payload := iq.Payload.(type) {
 	case *stanza.Bind:
@@ -292,6 +298,11 @@ func (s *Session) rfc3921Session() {
 
 		if s.err = s.transport.GetDecoder().Decode(&iq); s.err != nil {
 			s.err = errors.New("expecting iq result after session open: " + s.err.Error())
+			return
+		}
+		// Anything but an IQ of type result (an error, a stream error, another element) means the session was not opened
+		if iq.XMLName.Local != "iq" || iq.Type != stanza.IQTypeResult {
+			s.err = errors.New("session open failed: expected an iq result, got <" + iq.XMLName.Local + "> of type '" + string(iq.Type) + "'")
 			return
 		}
 	}
